@@ -19,16 +19,27 @@ import JrpcVerif.Model.SubServer
 namespace Jrpc.Driver
 open Jrpc Jrpc.SubServer
 
+/-- senders parked on a full connection queue, in parking order (tokio's bounded channel admits
+waiting senders first-come first-served): the task of subscription `k` wanting to send its closing
+notification, or a `send k p` of the script that was left parked (`ss parksend`) -/
+inductive Wait where
+  | task (k : Nat)
+  | send (k p : Nat)
+  deriving DecidableEq
+
 structure SubSt where
   st : State := { conns := [] }
   eager : Bool := true
   /-- subscription tasks parked on a full queue (closing notification), in the order they parked:
   tokio's bounded channel admits waiting senders first-come first-served -/
-  waiting : List Nat := []
+  waiting : List Wait := []
 
 namespace Subs
 
-def methName (m : Nat) : String := "n" ++ String.singleton (Char.ofNat (65 + m))
+/-- notification method names of the harness module: nA, nB, and — the `register_subscription_raw`
+method, whose notification name equals its subscribe name — subC -/
+def methName (m : Nat) : String :=
+  if m == 2 then "subC" else "n" ++ String.singleton (Char.ofNat (65 + m))
 
 /-! typed subscription ids on the line protocol: a decimal number is `Num n`, `s<hex>` is `Str`
 (`s-` = the empty string); the model works with `idKey` of the typed id -/
@@ -76,16 +87,24 @@ def isClosedRepr : Out → String
   | .bool b => if b then "closed=1" else "closed=0"
   | o => outRepr o
 
-/-- run every enabled `taskStep`: first the parked ones in parking order, then the others; returns
-the new parking order -/
-def settleTasks (st : State) (waiting : List Nat) : State × List Nat :=
-  let order := waiting ++ (List.range st.subs.length).filter (fun k => !(waiting.contains k))
+/-- One pass: the parked senders in parking order, then every other enabled `taskStep`.  A parked
+send that completes (ok / err) also lets go of the handle its blocked `send` call was holding.
+Returns the new parking order and the completions `k:p:result`. -/
+def settlePass (st : State) (waiting : List Wait) : State × List Wait × List String :=
+  let fresh := (List.range st.subs.length).filter (fun k => !(waiting.contains (.task k)))
+  let order := waiting ++ fresh.map Wait.task
   order.foldl
-    (fun (acc : State × List Nat) k =>
-      match step acc.1 (.taskStep k) with
-      | (s', .blocked) => (s', acc.2 ++ [k])
-      | (s', _) => (s', acc.2))
-    (st, [])
+    (fun (acc : State × List Wait × List String) w =>
+      match w with
+      | .task k =>
+        (match step acc.1 (.taskStep k) with
+          | (s', .blocked) => (s', acc.2.1 ++ [w], acc.2.2)
+          | (s', _) => (s', acc.2.1, acc.2.2))
+      | .send k p =>
+        (match step acc.1 (.sendResume k p) with
+          | (s', .blocked) => (s', acc.2.1 ++ [w], acc.2.2)
+          | (s', o) => ((step s' (.dropSink k)).1, acc.2.1, acc.2.2 ++ [s!"{k}:{p}:{outRepr o}"])))
+    (st, [], [])
 
 /-- writer steps on connection `c` until nothing moves (fuel = queue length + 1) -/
 def drainConn (st : State) (c : Nat) : Nat → State × List Frame
@@ -110,20 +129,40 @@ def drainAll (st : State) : State × List (List Frame) :=
 def finishAll (st : State) : State :=
   (List.range st.conns.length).foldl (fun s c => (step s (.connFinish c)).1) st
 
-def settle (eager : Bool) (st : State) (waiting : List Nat) : State × List (List Frame) × List Nat :=
-  let (st1, w1) := settleTasks st waiting
+def zipAppend (a b : List (List Frame)) : List (List Frame) :=
+  match a, b with
+  | x :: xs, y :: ys => (x ++ y) :: zipAppend xs ys
+  | [], ys => ys
+  | xs, [] => xs
+
+/-- eager mode: parked senders and the writer alternate until nothing moves -/
+def settleLoop : Nat → State → List Wait → List (List Frame) → List String →
+    State × List (List Frame) × List Wait × List String
+  | 0, st, w, fs, d => (st, fs, w, d)
+  | fuel + 1, st, w, fs, d =>
+    let (st1, w1, d1) := settlePass st w
+    let (st2, fs2) := drainAll st1
+    let moved := fs2.any (fun l => !l.isEmpty)
+    if w1.isEmpty || !moved then (st2, zipAppend fs fs2, w1, d ++ d1)
+    else settleLoop fuel st2 w1 (zipAppend fs fs2) (d ++ d1)
+
+def settle (eager : Bool) (st : State) (waiting : List Wait) :
+    State × List (List Frame) × List Wait × List String :=
   if eager then
-    let (st2, fs) := drainAll st1
-    (finishAll st2, fs, w1)
-  else (st1, st1.conns.map (fun _ => []), w1)
+    let (st2, fs, w, d) := settleLoop (st.subs.length + waiting.length + 2) st waiting [] []
+    (finishAll st2, fs, w, d)
+  else
+    let (st1, w1, d1) := settlePass st waiting
+    (st1, st1.conns.map (fun _ => []), w1, d1)
 
 def framesRepr (fs : List Frame) : String :=
   if fs.isEmpty then "-" else String.intercalate "," (fs.map frameRepr)
 
-def lineRepr (out : String) (st : State) (fss : List (List Frame)) : String :=
+def lineRepr (out : String) (st : State) (fss : List (List Frame)) (done : List String := []) : String :=
   let cs := (List.range fss.length).zip fss |>.map (fun p => s!"c{p.1}={framesRepr p.2}")
   let bits := String.join (st.conns.map (fun cn => if cn.isOpen then "1" else "0"))
-  String.intercalate ";" ([out] ++ cs ++ [s!"open={bits}"])
+  let dn := if done.isEmpty then [] else ["done=" ++ String.intercalate "," done]
+  String.intercalate ";" ([out] ++ cs ++ [s!"open={bits}"] ++ dn)
 
 def kv (key : String) (w : String) : Option Nat :=
   if w.startsWith (key ++ "=") then (w.drop (key.length + 1)).toString.toNat? else none
@@ -136,8 +175,8 @@ def parseRet (w : String) : Option Ret :=
 
 def runOp (s : SubSt) (op : Op) (repr : Out → String := outRepr) : SubSt × String :=
   let (st1, o) := step s.st op
-  let (st2, fss, w) := settle s.eager st1 s.waiting
-  ({ s with st := st2, waiting := w }, lineRepr (repr o) st2 fss)
+  let (st2, fss, w, d) := settle s.eager st1 s.waiting
+  ({ s with st := st2, waiting := w }, lineRepr (repr o) st2 fss d)
 
 /-- several model steps with no settling in between (the script did not yield between them) -/
 def runOps (s : SubSt) (ops : List Op) (sep : String) : SubSt × String :=
@@ -146,14 +185,52 @@ def runOps (s : SubSt) (ops : List Op) (sep : String) : SubSt × String :=
       let (st', o) := step acc.1 op
       (st', acc.2 ++ [outRepr o]))
     (s.st, [])
-  let (st2, fss, w) := settle s.eager st1 s.waiting
-  ({ s with st := st2, waiting := w }, lineRepr (String.intercalate sep os) st2 fss)
+  let (st2, fss, w, d) := settle s.eager st1 s.waiting
+  ({ s with st := st2, waiting := w }, lineRepr (String.intercalate sep os) st2 fss d)
 
-/-- how a send is issued: flavour `s` (send) | `t` (send_timeout) | `y` (try_send), message kind `c`
+/-- handles of subscription `k` the script itself can use: the live handles minus those held by its
+blocked (parked) send calls -/
+def scriptHandles (s : SubSt) (k : Nat) : Nat :=
+  match s.st.subs[k]? with
+  | none => 0
+  | some sb => sb.clones - (s.waiting.filter (fun w => match w with | .send k' _ => k' == k | _ => false)).length
+
+/-- an operation on the script's newest handle of `k`: `nosink` if every live handle is held by a
+parked send -/
+def withHandle (s : SubSt) (k : Nat) (run : SubSt → SubSt × String) (nos : String := "nosink") :
+    SubSt × String :=
+  match s.st.subs[k]? with
+  | none => run s
+  | some sb =>
+    if sb.clones > 0 && scriptHandles s k == 0 then
+      let (st2, fss, w, d) := settle s.eager s.st s.waiting
+      ({ s with st := st2, waiting := w }, lineRepr nos st2 fss d)
+    else run s
+
+/-- `ss parksend k p how`: a send that is left parked if the queue is full (the blocked call keeps
+holding a handle of the sink until it completes) -/
+def runParkSend (s : SubSt) (k p : Nat) : SubSt × String :=
+  match step s.st (.send k p) with
+  | (_, .blocked) =>
+    let st1 := (step s.st (.cloneSink k)).1
+    let (st2, fss, w, d) := settle s.eager st1 (s.waiting ++ [.send k p])
+    ({ s with st := st2, waiting := w }, lineRepr "parked" st2 fss d)
+  | _ => runOp s (.send k p)
+
+/-- `ss ident k`: what the pending sink / the sink says about itself -/
+def identRepr (st : State) (k : Nat) : String :=
+  match st.subs[k]? with
+  | none => "bad"
+  | some sb =>
+    if sb.phase == .pending || sb.clones > 0 then s!"id={keyRepr sb.subId},m={methName sb.meth},c={sb.conn}"
+    else "nosink"
+
+/-- how a send is issued: flavour `s` (send) | `t` / `z` / `u` (send_timeout with a long / zero / 1µs timeout) | `y` (try_send), message kind `c`
 (`SubscriptionMessage::new`, already serialised) | `n` (from a raw value, id/method filled in by the
 sink).  The model is indifferent: all six are the one atomic step `Op.send` (closed check, then
 enqueue). -/
-def sendHow (w : String) : Bool := ["sc", "sn", "tc", "tn", "yc", "yn"].contains w
+def sendHow (w : String) : Bool :=
+  ["sc", "sn", "tc", "tn", "zc", "zn", "uc", "un", "yc", "yn"].contains w
 
 def nat3 (a b c : String) : Option (Nat × Nat × Nat) :=
   match a.toNat?, b.toNat?, c.toNat? with
@@ -168,7 +245,9 @@ def subsVerb (s : SubSt) (ws : List String) : Option (SubSt × String) :=
   | ["case", _, "subs", mode, cap, qcap, conns] =>
     some (match kv "cap" cap, kv "qcap" qcap, kv "conns" conns with
       | some c, some q, some k =>
-        if mode == "mode=eager" then ({ st := init (List.replicate k (c, q)), eager := true }, "case")
+        if mode == "mode=eager" || mode == "mode=lowlevel" then
+          -- lowlevel = the `ws::connect` assembly instead of the TowerService: same machine
+          ({ st := init (List.replicate k (c, q)), eager := true }, "case")
         else if mode == "mode=manual" then ({ st := init (List.replicate k (c, q)), eager := false }, "case")
         else (s, "bad-op")
       | _, _, _ => (s, "bad-op"))
@@ -189,7 +268,8 @@ def subsVerb (s : SubSt) (ws : List String) : Option (SubSt × String) :=
         (match nat3 k p n with
           | some (k, p, n) =>
             if n == 0 || n > 16 || !sendHow how then (s, "bad-op")
-            else runOps s ((List.range n).map (fun i => Op.send k (p + i))) ","
+            else withHandle s k (fun s => runOps s ((List.range n).map (fun i => Op.send k (p + i))) ",")
+              (String.intercalate "," (List.replicate n "nosink"))
           | none => (s, "bad-op"))
       | ["reject", k, code] =>
         (match k.toNat?, parseInt code with
@@ -199,14 +279,32 @@ def subsVerb (s : SubSt) (ws : List String) : Option (SubSt × String) :=
         (match k.toNat? with | some k => runOp s (.dropPending k) | none => (s, "bad-op"))
       | ["send", k, p, how] =>
         (match k.toNat?, p.toNat? with
-          | some k, some p => if sendHow how then runOp s (.send k p) else (s, "bad-op")
+          | some k, some p => if sendHow how then withHandle s k (fun s => runOp s (.send k p)) else (s, "bad-op")
           | _, _ => (s, "bad-op"))
+      | ["parksend", k, p, how] =>
+        (match k.toNat?, p.toNat? with
+          | some k, some p => if sendHow how then withHandle s k (fun s => runParkSend s k p) else (s, "bad-op")
+          | _, _ => (s, "bad-op"))
+      | ["waitclosed", k] =>
+        -- `sink.closed().await` resolves exactly when `is_closed()` is true
+        (match k.toNat? with
+          | some k => withHandle s k (fun s => runOp s (.isClosed k) isClosedRepr)
+          | none => (s, "bad-op"))
+      | ["ident", k] =>
+        (match k.toNat? with
+          | some k =>
+            withHandle s k (fun s =>
+              let (st2, fss, w, d) := settle s.eager s.st s.waiting
+              ({ s with st := st2, waiting := w }, lineRepr (identRepr s.st k) st2 fss d))
+          | none => (s, "bad-op"))
       | ["clone", k] =>
-        (match k.toNat? with | some k => runOp s (.cloneSink k) | none => (s, "bad-op"))
+        (match k.toNat? with | some k => withHandle s k (fun s => runOp s (.cloneSink k)) | none => (s, "bad-op"))
       | ["dropsink", k] =>
-        (match k.toNat? with | some k => runOp s (.dropSink k) | none => (s, "bad-op"))
+        (match k.toNat? with | some k => withHandle s k (fun s => runOp s (.dropSink k)) | none => (s, "bad-op"))
       | ["isclosed", k] =>
-        (match k.toNat? with | some k => runOp s (.isClosed k) isClosedRepr | none => (s, "bad-op"))
+        (match k.toNat? with
+          | some k => withHandle s k (fun s => runOp s (.isClosed k) isClosedRepr)
+          | none => (s, "bad-op"))
       | ["ret", k, r] =>
         (match k.toNat?, parseRet r with
           | some k, some r => runOp s (.handlerReturn k r)
